@@ -33,6 +33,13 @@ def h64(obj) -> int:
     return int.from_bytes(hashlib.blake2b(s.encode(), digest_size=8).digest(), "big")
 
 
+class CaseTimeout(BaseException):
+    """raised inside a case that runs longer than CASE_LIMIT_S (see Ctx.next_case)"""
+
+
+CASE_LIMIT_S = int(os.environ.get("VERIF_CASE_LIMIT_S", "420"))
+
+
 class Ctx:
     """what a shard sees: seeds, counters, violation / known-finding / sample recording"""
 
@@ -48,6 +55,8 @@ class Ctx:
         self.case_index = -1
         self.only_case = None  # replay: run just this case index
         self.sets = {}
+        self.timed_out = False
+        self._alarm_installed = False
 
     def rng(self, *salt) -> random.Random:
         return random.Random(h64([self.pid, self.seed, self.shard, list(salt)]))
@@ -70,7 +79,20 @@ class Ctx:
         if len(self.samples) < limit:
             self.samples.append(case)
 
+    def _on_alarm(self, signum, frame):
+        # one case ran for CASE_LIMIT_S: the library's printing goes through a symbolic simplifier whose running time
+        # explodes on rare expressions.  The case is abandoned and counted - it is neither a violation nor evidence;
+        # whatever the interrupted code reports for this case afterwards is discarded.
+        self.timed_out = True
+        self.count("case_time_limit_reached")
+        import signal
+        signal.setitimer(signal.ITIMER_REAL, CASE_LIMIT_S)  # the abandoned case gets one more period to unwind
+        raise CaseTimeout(f"case {self.case_index} exceeded {CASE_LIMIT_S}s")
+
     def violation(self, mechanism, witness):
+        if self.timed_out:
+            self.count("discarded_after_case_time_limit")
+            return
         self.count("violations_raw")
         n = sum(1 for v in self.violations if v["mechanism"] == mechanism)
         if n < MAX_WITNESSES_PER_MECH:
@@ -80,6 +102,8 @@ class Ctx:
         self.count("violation:" + mechanism)
 
     def known_finding(self, kf_id, witness):
+        if self.timed_out:
+            return
         self.count("known:" + kf_id)
         n = sum(1 for v in self.known if v["kf"] == kf_id)
         if n < 2:
@@ -95,6 +119,17 @@ class Ctx:
         """call at the top of every case loop (numbers the cases of a shard; a replay re-runs the whole shard - cases
         share one seeded random stream, so skipping any would change the others - and then picks its case by index)"""
         self.case_index += 1
+        self.timed_out = False
+        try:
+            import signal
+            import threading
+            if threading.current_thread() is threading.main_thread():
+                if not self._alarm_installed:
+                    signal.signal(signal.SIGALRM, self._on_alarm)
+                    self._alarm_installed = True
+                signal.setitimer(signal.ITIMER_REAL, CASE_LIMIT_S)
+        except (ValueError, OSError, AttributeError):
+            pass
         return True
 
     def result(self):
@@ -126,9 +161,20 @@ def run_shard(pid, tier, seed, shard, nshards, out, params=None, only_case=None)
     status = "ok"
     try:
         mod.run(ctx)
+    except CaseTimeout as e:
+        # the abandoned case was not caught inside the check: the rest of this shard's workload is not run.  What was
+        # observed before stands; the truncation is recorded (and more than a few of them make the run inconclusive).
+        ctx.count("shard_truncated_by_case_time_limit")
+        ctx.notes["case_time_limit"] = str(e)
     except BaseException as e:  # a crash of the harness itself is inconclusive, never a verdict
         status = "crash"
         ctx.notes["crash"] = "".join(traceback.format_exception(type(e), e, e.__traceback__))[-4000:]
+    finally:
+        try:
+            import signal
+            signal.setitimer(signal.ITIMER_REAL, 0)
+        except (ValueError, OSError, AttributeError):
+            pass
     res = ctx.result()
     res["status"] = status
     res["wall_s"] = time.time() - t0
@@ -339,6 +385,9 @@ def finish(pid, tier, seed, mod, results, st_ok, st_info, t0):
         verdict, reason = "inconclusive", f"{len(bad)} shard(s) did not finish: {bad[0]['status']}"
     elif decisive == 0 or per_monitor_zero:
         verdict, reason = "inconclusive", "deciding monitor never evaluated: " + ",".join(per_monitor_zero or ["compared"])
+    elif counters.get("case_time_limit_reached", 0) > max(5, counters.get("cases", 0) // 200):
+        # a handful of abandoned cases is the simplifier's running time; many of them mean the workload did not run
+        verdict, reason = "inconclusive", f"{counters['case_time_limit_reached']} cases reached the per-case time limit"
     wall = time.time() - t0
     evaluations = counters.get("cases", 0) or decisive
     cov = {
